@@ -1001,6 +1001,8 @@ class Render:
             if t[0] == "eu":
                 return "eu_%s_%s(%s)" % ("bi" if t == EU_BI else "pl", "ok" if e["k"] == 1 else "err", self.expr(e["x"]))
             vn, pt = t[2][e["k"] - 1]
+            if e.get("raw"):        # the variant itself, not yet converted to its enum
+                return "%s.%s%s" % (t[1], vn, ".(%s)" % self.expr(e["x"]) if pt is not None else "")
             return "%s.(%s.%s%s)" % (t[1], t[1], vn, ".(%s)" % self.expr(e["x"]) if pt is not None else "")
         if k in ("isvar", "unwrap"):
             return "%s(%s, %s)" % ("#is_variant" if k == "isvar" else "#unwrap", self.expr(e["x"]), self.vty(e["sty"], e["k"]))
@@ -1055,6 +1057,8 @@ class Render:
             return ["%s :: %s;" % (s["n"], self.indent(self.expr(s["x"])))]
         if k == "let":
             t = tuple(s["ty"]) if isinstance(s["ty"], (list, tuple)) else s["ty"]
+            if s.get("noann"):
+                return ["%s :%s %s;" % (s["n"], "=" if s["mut"] else ":", self.indent(self.expr(s["x"])))]
             tn = "usize" if s.get("usize") else (t if isinstance(t, str) else tyname(self.tup(t)))
             return ["%s : %s %s %s;" % (s["n"], tn, "=" if s["mut"] else ":", self.indent(self.expr(s["x"])))]
         if k == "set":
@@ -1094,6 +1098,8 @@ class Render:
                 lines.append("    _ => %s," % self.indent(self.indent(self.expr(s["dflt"]))))
             lines.append("};")
             return lines
+        if k == "typedecl":
+            return [s["text"]]
         if k == "break":
             lab = " `%s" % s["label"] if s["label"] else ""
             val = " " + self.expr(s["x"]) if s["x"]["e"] != "none" else ""
@@ -1138,7 +1144,7 @@ class Render:
 def strip(x):
     """the abstract syntax without the renderer's annotations (types of lets / prints etc.)"""
     if isinstance(x, dict):
-        return {k: strip(v) for k, v in x.items() if k not in ("ty", "mut", "flat", "elem", "usize", "ret", "kind", "text", "plain", "sty", "order", "auto", "m", "char", "tychar", "inline", "lambda", "local", "comptime", "qual", "file", "tytext", "varargs")
+        return {k: strip(v) for k, v in x.items() if k not in ("ty", "mut", "flat", "elem", "usize", "ret", "kind", "text", "plain", "sty", "order", "auto", "m", "char", "tychar", "inline", "lambda", "local", "comptime", "qual", "file", "tytext", "varargs", "text", "raw", "noann")
                 or (k == "ty" and x.get("e") in ("int", "cast", "rec", "type"))}
     if isinstance(x, (list, tuple)):
         return [strip(v) for v in x]
